@@ -25,3 +25,9 @@ Theorem C04_emitted_hook_is_recognised : forall e args name span,
   span_of (dd_call e args name span) = span.
 Proof. intros. split; [apply hook_call_dd_call | destruct span; reflexivity]. Qed.
 Print Assumptions C04_emitted_hook_is_recognised.
+
+(** The property names the methods that are instrumented on a string-literal receiver: the list the code carries
+    (regenerated from csi_methods.rs on every run) is that list. *)
+Theorem C04_literal_receiver_methods_are_documented : gen_lit_callers = documented_lit_callers.
+Proof. reflexivity. Qed.
+Print Assumptions C04_literal_receiver_methods_are_documented.
